@@ -86,6 +86,38 @@ def top_kinds(tree):
     return "+".join(s.get("k", "?") for s in tree.get("body", [])[:3]) if isinstance(tree.get("body"), list) else "?"
 
 
+def classify(ctx, s, label, text, offs, ref, resp):
+    """(signature, detail, predicted-gap?) of one parsed completion against the reference tree, or (None, None, False)"""
+    names = name_positions(ref, set())
+    gap = [(k, "kw" if k == o else "name", "name" if off in names else "kw")
+           for k, o, off in zip(s["raw"], s["out"], offs) if k in SOFT]
+    gap = [g for g in gap if g[1] != g[2]]
+    bad = None
+    treesig = None
+    if "ok" not in resp:
+        bad = "rejects" if "err" in resp else "crash"
+    else:
+        want = pytree.strip_ranges(ref)
+        if s.get("mode") == "Interactive":
+            want = dict(want, k="Interactive")
+        d = pytree.tree_diff(want, pytree.strip_ranges(pytree.from_rust(resp["ok"])))
+        if d:
+            bad = "tree"
+            treesig = "tree@" + sr.tree_sig(d)
+    if bad is None:
+        if gap:
+            # decision differs from the reference role and yet the tree is right: the role computation is wrong
+            ctx.note("softkw: role/decision differ on an agreeing program %r %s" % (text, gap))
+        return None, None, False
+    if gap and bad == "rejects":
+        g = gap[0]
+        return "softkw.gap:%s=%s,reference=%s:%s" % (g[0], g[1], g[2], top_kinds(ref)), {"src": text, "decisions": s["out"]}, True
+    if bad == "tree" and not gap:
+        # the soft keywords were classified as the reference does: an ordinary tree difference, named as C01 names it
+        return treesig, {"src": text, "mode": s.get("mode"), "decisions": s["out"]}, False
+    return "softkw.%s:%s:%s" % (bad, label, top_kinds(ref)), {"src": text, "decisions": s["out"], "observed": str(resp)[:300]}, False
+
+
 def run_streams(ctx):
     from vcheck import ToolError
     tier = "quick" if ctx.quick else "thorough"
@@ -159,36 +191,11 @@ def run_streams(ctx):
         ref = refs[i]
         ctx.replayed += 1
         ctx.distinct_cases.add("skp" + text)
-        names = name_positions(ref, set())
-        gap = [(k, "kw" if k == o else "name", "name" if off in names else "kw")
-               for k, o, off in zip(s["raw"], s["out"], offs) if k in SOFT]
-        gap = [g for g in gap if g[1] != g[2]]
         base = {"fam": "softkw_parse", "stream": s, "src": text, "label": label}
-        bad = None
-        if "ok" not in resp:
-            bad = "rejects" if "err" in resp else "crash"
-        else:
-            want = pytree.strip_ranges(ref)
-            if s["mode"] == "Interactive":
-                want = dict(want, k="Interactive")
-            d = pytree.tree_diff(want, pytree.strip_ranges(pytree.from_rust(resp["ok"])))
-            if d:
-                bad = "tree"
-                treesig = "tree@" + sr.tree_sig(d)
-        if bad is None:
-            if gap:
-                # decision differs from the reference role and yet the tree is right: the role computation is wrong
-                ctx.note("softkw: role/decision differ on an agreeing program %r %s" % (text, gap))
-            continue
-        if gap and bad == "rejects":
-            gaps += 1
-            g = gap[0]
-            ctx.mismatch("softkw.gap:%s=%s,reference=%s:%s" % (g[0], g[1], g[2], top_kinds(ref)), {"src": text, "decisions": s["out"]}, base)
-        elif bad == "tree" and not gap:
-            # the soft keywords were classified as the reference does: an ordinary tree difference, named as C01 names it
-            ctx.mismatch(treesig, {"src": text, "mode": s["mode"], "decisions": s["out"]}, base)
-        else:
-            ctx.mismatch("softkw.%s:%s:%s" % (bad, label, top_kinds(ref)), {"src": text, "decisions": s["out"], "observed": str(resp)[:300]}, base)
+        sig, detail, isgap = classify(ctx, s, label, text, offs, ref, resp)
+        if sig:
+            gaps += 1 if isgap else 0
+            ctx.mismatch(sig, detail, base)
     ctx.extra["softkw_predicted_gaps"] = gaps
 
 
@@ -332,13 +339,15 @@ def replay(ctx, c):
         if kinds(resp) != s["out"]:
             ctx.mismatch("softkw.mirror:replay", {"src": c["src"], "spec_out": s["out"], "observed": kinds(resp)}, c)
     elif c["fam"] == "softkw_parse":
-        resp = h.run([{"op": "parse", "src": c["src"], "mode": "Module"}])[0]
+        st = c["stream"]
+        resp = h.run([{"op": "parse", "src": c["src"], "mode": st.get("mode", "Module")}])[0]
         ctx.replayed += 1
         ref = pytree.from_cpython(c["src"], "Module") or pygen.Py312().trees([(c["src"], "Module")])[0]
-        if "ok" not in resp:
-            ctx.mismatch("softkw.rejects:replay", {"src": c["src"], "observed": str(resp)[:300]}, c)
-        elif ref and pytree.tree_diff(pytree.strip_ranges(ref), pytree.strip_ranges(pytree.from_rust(resp["ok"]))):
-            ctx.mismatch("softkw.tree:replay", {"src": c["src"]}, c)
+        offs = next((o for (lb, t, o) in completions(st["raw"]) if lb == c.get("label")), None)
+        if ref is not None and offs is not None:
+            sig, detail, _ = classify(ctx, st, c.get("label"), c["src"], offs, ref, resp)
+            if sig:
+                ctx.mismatch(sig, detail, c)
     else:
         events, owners = record_lines(ctx, [c["src"]])
         validate_lines(ctx, events, owners, [c["src"]])
